@@ -64,7 +64,7 @@ type rawPara struct {
 func readNextLoop(doc string) J {
 	r, err := control.NewParagraphReader(strings.NewReader(doc), nil)
 	if err != nil {
-		return J{"paras": []interface{}{}, "end": "err", "steps": 0}
+		return J{"paras": []interface{}{}, "end": "err", "steps": 0, "nil_on_end": true}
 	}
 	paras := []control.Paragraph{}
 	budget := len(doc) + 8
@@ -204,9 +204,17 @@ func execControlRW(vec J, out *Writer) {
 			if err != nil {
 				return
 			}
+			dup, _ := vec["dup"].(bool)
 			for _, vj := range L(vec["values"]) {
 				v := M(vj)
-				if enc.Encode(encProbe{Name: S(v["Name"]), Comment: S(v["Comment"])}) != nil {
+				var err error
+				if dup {
+					// two members of the struct carry the same field name: the paragraph still has that field once
+					err = enc.Encode(encDup{A: S(v["Name"]), B: S(v["Name"]), S: S(v["Comment"])})
+				} else {
+					err = enc.Encode(encProbe{Name: S(v["Name"]), Comment: S(v["Comment"])})
+				}
+				if err != nil {
 					return
 				}
 			}
@@ -418,4 +426,10 @@ func (f *faultySink) Write(p []byte) (int, error) {
 type encProbe struct {
 	Name    string `required:"true"`
 	Comment string
+}
+
+type encDup struct {
+	A string `control:"Name" required:"true"`
+	B string `control:"Name" required:"true"`
+	S string `control:"Comment"`
 }
